@@ -166,6 +166,9 @@ def explore_case(env, hist, st):
         g, b = split_battery(got), split_battery(base)
         bad = [op for op in b if g.get(op) != b[op]]
         st.fail("API results differ from a fresh context after history %s: battery ops %s differ" % ("/".join(hist), bad), {"cfg": L.config, "history": list(hist), "ops": bad})
+    if cs.compr and L.verif_sha256_zero_block_calls() and not getattr(st, "zero_reported", False):
+        st.zero_reported = True
+        st.fail("with a replaced compression function installed, the library called it with n_blocks == 0 (documented: one or more blocks) after history %s" % "/".join(hist), {"cfg": L.config, "history": list(hist)})
     if L.illegal or L.errors or _cb_hits[0] or _cb_err_hits[0]:
         st.fail("callback fired during the battery (illegal=%d error=%d custom=%d/%d)" % (L.illegal, L.errors, _cb_hits[0], _cb_err_hits[0]), {"cfg": L.config, "history": list(hist)})
         L.cb_reset()
